@@ -931,3 +931,6 @@ m('C20', '_check_time: checked times discarded (defect F25)', TIME,
   'C20.F4.handover')
 m('C13', '_set_nf_re: float() of a one-entry array (defect F26)', SURV,
   "                value = float(value.item())", "                value = float(value)", 'C13.N3.validate')
+m('C10', 'point source: linear fraction not clamped below the first centre (defect F27)', FIELDS,
+  "                rc = max(0.0, (csrc-cc[ic])/(cc[ic1]-cc[ic]))", "                rc = (csrc-cc[ic])/(cc[ic1]-cc[ic])",
+  'C10.PV.linear')
